@@ -335,7 +335,11 @@ def ec_key_checks_sound(ctx):
     n = v["n"]
     w = ctx.rnd.randrange(1 << 31, 1 << 32)
     rep = w * sum(1 << (32 * i) for i in range(4))
+    # negatives of SMALL structured keys are found through the -dl candidate of the baby-step table and recorded as a
+    # negative logarithm: e * 2^(8j) and e * (1 + 2^32 + ...) for small e
+    small_rep = sum(1 << (32 * i) for i in range(3))
     ds = [w << 40, n - (w << 16), rep, n - rep, (1 << 32) + 5, (1 << 32) + 10 ** 6, ((1 << 32) + 3) << 16, rep + 1, 1, 2,
+          n - (0x2a5 << 40), n - (3 << 16), n - 7 * small_rep, n - 1,
           ctx.rnd.randrange(1 << 200, n), ctx.rnd.randrange(1 << 200, n)]
     spec += [(name, v, cid, d) for d in ds]
   ctx.rnd.shuffle(spec)
